@@ -110,9 +110,17 @@ func (l *Live) LiveFiles(rn *Runner) []*File {
 // ---- C12 ------------------------------------------------------------------------------------------
 
 // C12Oracle: no collection run deletes a chunk whose pin count is positive or that was stored by
-// local upload, and no run changes a pin count.
+// local upload, and no run changes a pin count.  The clause tag names WHAT was violated and the
+// trigger shape, so that each designed-in way of losing pinned / uploaded content has its own
+// signature:
+//
+//	.evicted-file-was-pinned         the chunk belongs to an evicted file whose reference was listed as pinned
+//	                                 (a pinned cached file re-enters the gc index when more of it is fetched)
+//	.shared-with-unregistered-upload the chunk belongs to a /bytes upload, which chunkinfo's reference counts do not know
+//	.after-unpin                     the chunk belongs to an uploaded file that went through pin + unpin (unpin enters it into the gc index)
+//	.other                           none of these
 type C12Oracle struct {
-	unpinned map[string]bool // roots that went through an API unpin (their chunks entered the gc index by design)
+	unpinned map[string]bool // specs that went through an API unpin
 }
 
 func NewC12Oracle() *C12Oracle { return &C12Oracle{unpinned: map[string]bool{}} }
@@ -129,6 +137,42 @@ func (o *C12Oracle) Check(ctx *core.Ctx, ev *Event) {
 	}
 	rn := ev.Runner
 	b, a := ev.Before, ev.After
+	listed := map[string]bool{}
+	for _, l := range b.Listed {
+		listed[l] = true
+	}
+	// files evicted by this run
+	var evicted []*File
+	stillGC := map[string]bool{}
+	for _, g := range a.GC {
+		stillGC[g.Root.String()] = true
+	}
+	for _, g := range b.GC {
+		if !stillGC[g.Root.String()] {
+			if f := rn.byRoot(g.Root); f != nil {
+				evicted = append(evicted, f)
+			}
+		}
+	}
+	cause := func(k string) string {
+		addr := boson.MustParseHexAddress(k)
+		for _, f := range evicted {
+			if f.HasAddr(addr) && listed[f.Root.String()] {
+				return "evicted-file-was-pinned"
+			}
+		}
+		for _, f := range rn.Files() {
+			if f.Raw && f.HasAddr(addr) {
+				return "shared-with-unregistered-upload"
+			}
+		}
+		for _, f := range rn.Files() {
+			if f.AtN && f.HasAddr(addr) && o.unpinned[f.Spec] {
+				return "after-unpin"
+			}
+		}
+		return "other"
+	}
 	// (1) pin index identical
 	var keys []string
 	for k := range b.Pin {
@@ -142,37 +186,29 @@ func (o *C12Oracle) Check(ctx *core.Ctx, ev *Event) {
 	sort.Strings(keys)
 	for _, k := range keys {
 		if b.Pin[k] != a.Pin[k] {
-			clause := "gc-decrements-pin-counter"
-			if a.Pin[k] == 0 {
-				clause = "gc-deletes-pin-entry"
-			}
-			ctx.Fail(clause, "gc run changed pin counter of chunk %s (id %d): %d -> %d", k[:8], rn.ids[k], b.Pin[k], a.Pin[k])
+			ctx.Fail("gc-changes-pin-counter."+cause(k), "gc run changed pin counter of chunk %s (id %d): %d -> %d", k[:8], rn.ids[k], b.Pin[k], a.Pin[k])
 		}
 	}
 	// (2) pinned chunks still stored
-	for k, c := range b.Pin {
-		if c > 0 && b.Stored[k] && !a.Stored[k] {
-			ctx.Fail("gc-deletes-pinned-chunk", "gc run deleted chunk %s (id %d) whose pin counter was %d", k[:8], rn.ids[k], c)
+	keys = keys[:0]
+	for k := range b.Pin {
+		keys = append(keys, k)
+	}
+	sort.Strings(keys)
+	for _, k := range keys {
+		if b.Pin[k] > 0 && b.Stored[k] && !a.Stored[k] {
+			ctx.Fail("gc-deletes-pinned-chunk."+cause(k), "gc run deleted chunk %s (id %d) whose pin counter was %d", k[:8], rn.ids[k], b.Pin[k])
 		}
 	}
 	// (3) chunks stored by local upload still stored
+	keys = keys[:0]
 	for k := range rn.Uploaded {
+		keys = append(keys, k)
+	}
+	sort.Strings(keys)
+	for _, k := range keys {
 		if b.Stored[k] && !a.Stored[k] {
-			clause := "gc-deletes-uploaded-chunk"
-			// narrow tags for the two designed-in ways uploaded content becomes evictable
-			owner := ""
-			for _, f := range rn.Files() {
-				if f.AtN && f.HasAddr(boson.MustParseHexAddress(k)) {
-					owner = f.Spec
-					if o.unpinned[f.Spec] {
-						clause = "gc-deletes-uploaded-chunk-after-unpin"
-					}
-				}
-			}
-			if rn.EverCached[k] && clause == "gc-deletes-uploaded-chunk" {
-				clause = "gc-deletes-uploaded-chunk-also-cached"
-			}
-			ctx.Fail(clause, "gc run deleted chunk %s (id %d) that was stored by local upload (file %s)", k[:8], rn.ids[k], owner)
+			ctx.Fail("gc-deletes-uploaded-chunk."+cause(k), "gc run deleted chunk %s (id %d) that was stored by local upload", k[:8], rn.ids[k])
 		}
 	}
 }
@@ -187,11 +223,14 @@ type pinFrame struct {
 // C15Oracle: pin marks reference + all chunks; second pin no change; unpin restores every counter
 // to the pre-pin value; second unpin no change; listed iff last op was pin.
 type C15Oracle struct {
-	last  map[string]string // spec -> "pin" | "unpin" | ""
-	stack []pinFrame
+	last    map[string]string // spec -> "pin" | "unpin" | ""
+	stack   []pinFrame
+	partial map[string]bool // spec was pinned while not fully stored: outside the property ("a stored reference")
 }
 
-func NewC15Oracle() *C15Oracle { return &C15Oracle{last: map[string]string{}} }
+func NewC15Oracle() *C15Oracle {
+	return &C15Oracle{last: map[string]string{}, partial: map[string]bool{}}
+}
 
 func samePins(a, b map[string]uint64) (string, bool) {
 	for k, v := range a {
@@ -243,8 +282,15 @@ func (o *C15Oracle) Check(ctx *core.Ctx, ev *Event) {
 			if o.last[f.Spec] == "pin" {
 				ctx.Fail("pin-created-twice", "pin of %s answered 201 although the last operation on it was a pin", f.Spec)
 			}
-			o.stack = append(o.stack, pinFrame{spec: f.Spec, pins: copyPins(ev.Before.Pin)})
 			o.last[f.Spec] = "pin"
+			if !f.Enc && !allStored(f, ev.Before) {
+				// not a stored reference: CreatePin skips the missing chunks and DeletePin then fails
+				o.partial[f.Spec] = true
+				o.stack = nil
+				break
+			}
+			o.partial[f.Spec] = false
+			o.stack = append(o.stack, pinFrame{spec: f.Spec, pins: copyPins(ev.Before.Pin)})
 			for _, a := range f.All {
 				if ev.After.Pin[a.String()] == 0 {
 					clause := "pinned-chunk-not-marked"
@@ -312,7 +358,15 @@ func (o *C15Oracle) Check(ctx *core.Ctx, ev *Event) {
 				ctx.Fail("second-unpin-changes-state", "repeated unpin of %s changed the list of pinned references", f.Spec)
 			}
 		default:
-			ctx.Fail("unpin-failed", "unpin of %s answered %d", f.Spec, ev.Code)
+			o.stack = nil
+			switch {
+			case o.partial[f.Spec]:
+				// outside the property
+			case f.Enc:
+				ctx.Fail("unpin-fails-encrypted", "unpin of encrypted reference %s answered %d and the reference stays listed", f.Spec, ev.Code)
+			default:
+				ctx.Fail("unpin-failed", "unpin of %s answered %d", f.Spec, ev.Code)
+			}
 		}
 	case "haspin":
 		if f != nil {
